@@ -30,6 +30,7 @@ type Assumption struct {
 	LocMin   int64
 	// or: len(location of field LEField) <= len(location of field GEField) (same base object) at function entry
 	LEField, GEField *types.Var
+	AnyBase          bool // the two fields belong to different objects (a relation that holds for every pair of them)
 	Why              string
 }
 
@@ -444,6 +445,17 @@ func (a *Analysis) call(m *DBM, c *ssa.Call) {
 		}
 		return
 	}
+	if strings.HasPrefix(name, "slices.Index[") || strings.HasPrefix(name, "slices.IndexFunc[") || name == "slices.Index" || name == "slices.IndexFunc" {
+		// pure search of the standard library: -1 <= result < len(arg0)
+		if i, ok := a.vars[c]; ok {
+			m.Forget(i)
+			m.AddLE(0, i, 1)
+			if t := a.lenTerm(args[0]); t.ok {
+				m.AddLE(i, t.v, t.off-1)
+			}
+		}
+		return
+	}
 	// generic call: unknown results; tracked memory may be modified by module callees
 	if i, ok := a.vars[c]; ok {
 		m.Forget(i)
@@ -716,7 +728,7 @@ func (a *Analysis) Run() []Obligation {
 		if as.LEField != nil {
 			for l1, i1 := range a.locs {
 				for l2, i2 := range a.locs {
-					if l1.field == as.LEField && l2.field == as.GEField && l1.base == l2.base {
+					if l1.field == as.LEField && l2.field == as.GEField && (as.AnyBase || l1.base == l2.base) {
 						entry.AddLE(i1, i2, 0)
 					}
 				}
